@@ -464,13 +464,32 @@ def h_m_call(w, st, rec):
     # systematic single-fault sweep: the same call once per seam call it makes, the k-th failing
     if rec.get("sweep") and rec.get("arm") is None:
         for seam in sorted(seam_calls):
-            for k in range(1, seam_calls[seam] + 1):
+            for k in sweep_positions(seam, seam_calls[seam]):
                 fn2, args2 = call_method(w, st, obj, mtype, method, a, G.seed_object(w, rec.get("seed")))
-                out2 = w.call(fn2, arm=[seam, k, rec.get("sweep_exc", "MemoryError")])
+                pre2 = [digest(x) for x in args2]
+                out2 = w.call(fn2, arm=[seam, k, sweep_exc(seam, k, rec)])
                 w.probes["sweep.fault_positions"] += 1
+                if seam == "np.*":
+                    w.probes["sweep.np_star"] += 1
                 m["fmask"] |= 4
+                if pre2 != [digest(x) for x in args2]:
+                    w.violate("argument_modified", site, {"after": "injected %s failure #%d" % (seam, k)})
                 check_models(w, st, site, failed=(out2[0] == "exc"))
     return outcome_digest(*out), out
+
+
+def sweep_positions(seam, n, cap=24):
+    """Which of the n calls of a seam fail in a sweep: all of them, or `cap` evenly spread ones (first and last
+    included) when an operation makes more (a function of n alone: the op list stays the whole input)."""
+    if n <= cap:
+        return list(range(1, n + 1))
+    return sorted({1 + (i * (n - 1)) // (cap - 1) for i in range(cap)})
+
+
+def sweep_exc(seam, k, rec):
+    if seam == "np.*":       # any numpy call: an allocation that fails, or the user's Ctrl-C
+        return "MemoryError" if k % 2 else "KeyboardInterrupt"
+    return rec.get("sweep_exc", "MemoryError")
 
 
 def literal_args(w, st, a):
@@ -593,15 +612,17 @@ def h_u_call(w, st, rec):
     if rec.get("sweep") and rec.get("arm") is None:
         seam_calls = dict(w.last_seam_calls)
         for seam in sorted(seam_calls):
-            for k in range(1, seam_calls[seam] + 1):
+            for k in sweep_positions(seam, seam_calls[seam]):
                 args2 = [build_arg(w, st, a) for a in rec["args"]]
                 kw2 = {kk: build_arg(w, st, v) for kk, v in rec.get("kw", {}).items()}
                 if "dtype" in kw2 and isinstance(kw2["dtype"], str):
                     kw2["dtype"] = np.dtype(kw2["dtype"])
                 pre2 = [digest(x) for x in args2]
-                out2 = w.call(f, *args2, arm=[seam, k, "MemoryError"], **kw2)
+                out2 = w.call(f, *args2, arm=[seam, k, sweep_exc(seam, k, {})], **kw2)
                 w.probes["sweep.fault_positions"] += 1
                 w.probes["sweep.utils"] += 1
+                if seam == "np.*":
+                    w.probes["sweep.np_star"] += 1
                 if pre2 != [digest(x) for x in args2]:
                     w.violate("argument_modified", site, {"after": "injected %s failure #%d" % (seam, k)})
                 check_models(w, st, site, failed=(out2[0] == "exc"))
@@ -1543,7 +1564,25 @@ def generate(run_seed, deep=False):
             r2.pop("as_model", None)
             r2.pop("keep", None)
             ops.append(r2)
+    np_star_faults(st["np_star"], ops)
     return cfg, ops
+
+
+def np_star_faults(f, ops):
+    """Fault kind seam.raise on the seam "np.*" (any numpy call of the library): decided by a stream of its own, after
+    the history has been generated, so that the histories themselves are what they were without it."""
+    rate = f.choice([0, 0, 0.03, 0.08, 0.2])
+    for rec in ops:
+        if rec.get("op") not in ("m.call", "u.call"):
+            continue
+        r, r2, k, e = f.random(), f.random(), 1 + int(f.expovariate(1 / 7.0)), f.choice(["MemoryError", "KeyboardInterrupt"])
+        if r >= rate or rec.get("arm") is not None or any(rec.get(x) for x in ("sweep", "burst", "invalid", "keep",
+                                                                                 "as_model", "twin", "via")):
+            continue
+        if r2 < 0.5:
+            rec["arm"] = ["np.*", k, e]
+        else:
+            rec["sweep"] = True
 
 
 def _aslist(j):
